@@ -5,10 +5,14 @@
      progs    per goroutine its client program (0 Lock, 1 TryLock, 2 Unlock)
      initpos  the schedule point each goroutine was parked at before the first step
      sched    goroutine ids in the order the driver granted steps (one atomic operation each)
-     flatobs  five numbers per step (flattened, to keep the case lines cheap to parse): m.v,
+     flatobs  six numbers per step (flattened, to keep the case lines cheap to parse): m.v,
               len(m.ch), point the stepping goroutine parked at afterwards (0 = finished),
               API return events of the step (base 8 digits: 1 Lock returned, 2 TryLock true,
-              3 TryLock false, 4 Unlock returned), number of clients inside the critical section
+              3 TryLock false, 4 Unlock returned), number of clients inside the critical section,
+              and the client-side call word 10*call + k: which API call the stepping goroutine's
+              client is executing after the step (0 none/finished, 1 Lock, 2 TryLock, 3 Unlock;
+              recorded by the harness client, not derived from the point ids) and how many
+              atomic steps it has been granted inside that call so far (k, capped at 9)
      hung     the last granted step did not come back within the watchdog time (no obs for it)
      panicked some client goroutine panicked
      maximal  the run ended because no goroutine was enabled in the real state
@@ -22,22 +26,22 @@ From NP Require Import Model.Tmutex.
 Import ListNotations.
 Open Scope Z_scope.
 
-Definition ob := (Z * Z * Z * Z * Z)%type.
+Definition ob := (Z * Z * Z * Z * Z * Z)%type.
 
 Inductive case :=
 | Run (progs : list (list Z)) (initpos : list Z) (sched : list Z) (flatobs : list Z)
       (hung panicked maximal : bool)
 | Stress (goroutines iters maxocc : Z) (completed : bool).
 
-(* five numbers per step -> one observation per step; a ragged tail yields an impossible
+(* six numbers per step -> one observation per step; a ragged tail yields an impossible
    observation so that the comparison fails *)
 Fixpoint unflat (fuel : nat) (l : list Z) : list ob :=
   match fuel with
   | O => []
   | S f => match l with
            | [] => []
-           | v :: c :: p :: e :: o :: r => (v, c, p, e, o) :: unflat f r
-           | _ => [(0, -1, -1, -1, -1)]
+           | v :: c :: p :: e :: o :: cs :: r => (v, c, p, e, o, cs) :: unflat f r
+           | _ => [(0, -1, -1, -1, -1, -1)]
            end
   end.
 Definition obs_of (l : list Z) : list ob := unflat (length l) l.
@@ -79,7 +83,7 @@ Fixpoint zlist_eqb (a b : list Z) : bool :=
 Fixpoint follow (s : state) (sched : list Z) (obs : list ob) : option state :=
   match sched, obs with
   | [], [] => Some s
-  | t :: r, (v, c, p, e, o) :: ro =>
+  | t :: r, (v, c, p, e, o, _) :: ro =>   (* the client-side call word is for [spec] only *)
       if t <? 0 then None else
       match step_ev s (Z.to_nat t) with
       | None => None            (* the model says this goroutine is blocked / finished *)
@@ -117,6 +121,14 @@ Definition corr (c : case) : Z :=
    (b) TryLock does not fail when the mutex is free and nobody else is contending: if, when the
        call starts, nobody is inside the critical section and every other goroutine is between
        API calls, and no other goroutine takes a step during the call, it must return true;
+   (b') TryLock never blocks: a TryLock call consists of at most two atomic steps of its caller
+       (the load and the compare-and-swap) and its caller is never parked at a blocking
+       operation.  Checked twice, independently: on the client-side call word (while the client
+       is inside TryLock it has been granted at most one step and is not parked at a receive
+       (kind 5) or blocking send (kind 7) point -- "TryLock blocked"), and on the point ids (a
+       goroutine that steps from TryLock's load point either returns from TryLock or is parked at
+       TryLock's CAS point, and the step from the CAS point returns from TryLock: any other
+       point reached during a TryLock call is a violation);
    (c) no goroutine is left blocked for ever: a run that ends with no goroutine enabled must have
        finished every client program (all generated programs end by unlocking);
    (d) no real blocking (hung) and no panic. *)
@@ -156,7 +168,7 @@ Fixpoint digits (fuel : nat) (e : Z) : list Z :=
 
 Definition spec_step (st : sst) (t : Z) (o : ob) : sst :=
   match o with
-  | (v, c, p, e, occ) =>
+  | (v, c, p, e, occ, cs) =>
       let i := Z.to_nat t in
       let pre := nth i (ss_pos st) (-1) in
       let ds := digits 6 e in
@@ -167,9 +179,17 @@ Definition spec_step (st : sst) (t : Z) (o : ob) : sst :=
       let bad_acq := acquired && (negb (ss_occ st =? 0) || negb (occ =? 1)) in
       let tryfalse := existsb (fun d => d =? 3) ds in
       let bad_try := tryfalse && (((pre =? 220) && quiet0) || ((pre =? 240) && inflight)) in
+      let tryret := existsb (fun d => (d =? 2) || (d =? 3)) ds in
+      let kind := (p / 10) mod 10 in
+      let bad_tryblock :=
+        (* client-side: inside TryLock after the step *)
+        ((cs / 10 =? 2) && ((1 <? cs mod 10) || (kind =? 5) || (kind =? 7)))
+        (* point ids: from the load point: return or CAS point; from the CAS point: return *)
+        || ((pre =? 220) && negb tryret && negb (p =? 240))
+        || ((pre =? 240) && negb tryret) in
       let try' := zset (map (fun _ => false) (ss_try st)) i ((pre =? 220) && quiet0 && (p =? 240)) in
       mkSst (zset (ss_pos st) i p) occ try'
-            (ss_bad st || bad_occ || bad_acq || bad_try || (t <? 0))
+            (ss_bad st || bad_occ || bad_acq || bad_try || bad_tryblock || (t <? 0))
             (ss_woke st || (pre =? 150)) (ss_slow st || (p =? 120))
   end.
 
